@@ -93,7 +93,7 @@ impl<'o> Hist<'o> {
                 let owned = self.rng.below(100) < k.w_owned;
                 let t = self.rng.below(100);
                 if t < k.w_typed / 2 {
-                    let ty = self.rng.below(if cfg!(miri) { 15 } else { 16 }) as u8;
+                    let ty = self.rng.below(if cfg!(miri) { 15 } else { 17 }) as u8;
                     let ti = ty_info(ty);
                     self.do_alloc(Req::Typed { size: ti.size, align: ti.align }, ty, owned, via);
                 } else if t < k.w_typed {
@@ -267,6 +267,15 @@ pub fn expected_describe(cfg: &Cfg, ro: bool) -> Vec<(&'static str, String)> {
 }
 
 pub fn run_history(seed: u64, index: u64, knobs: &Knobs, out: &mut Out) {
+    // one history in five runs with spurious compare_exchange_weak failures injected (sync::Arena only has them)
+    SPURIOUS.with(|c| c.set((mix(seed, index) | 1, if index % 5 == 2 { 25 } else { 0 })));
+    let inj0 = SPURIOUS_INJECTED.with(|c| c.get());
+    run_history_inner(seed, index, knobs, out);
+    SPURIOUS.with(|c| c.set((0, 0)));
+    out.add("spurious_cas_failures_injected", SPURIOUS_INJECTED.with(|c| c.get()) - inj0);
+}
+
+fn run_history_inner(seed: u64, index: u64, knobs: &Knobs, out: &mut Out) {
     let mut rng = Rng::derive(seed, index, knobs.prop.bytes().fold(7u64, |h, b| mix(h, b as u64)));
     let mut cfg = sample_cfg(&mut rng, index, knobs.allow_file, knobs.allow_mmap);
     if knobs.force_file {
@@ -336,6 +345,8 @@ pub fn run_history(seed: u64, index: u64, knobs: &Knobs, out: &mut Out) {
         tmp_recycled: false,
         unobserved_releases: 0,
         closed: false,
+        pending_early_drops: (false, 0),
+        stay_read_only: false,
     };
     h.log(format!("cfg {}", cfg.to_json().dump()));
     if knobs.want_other_flavour || h.rng.chance(1, 5) {
@@ -400,6 +411,18 @@ pub fn run_history(seed: u64, index: u64, knobs: &Knobs, out: &mut Out) {
         h.check_invariants();
     }
     h.out.add("steps", h.steps);
+    // C13: some file-backed histories end in a read-only session (map / map_copy_read_only), so that the
+    // teardown clauses (refs, unmapping, remove-on-drop exactly when the last value goes) are observed there too
+    if knobs.prop == "C13" && !h.failed && !h.closed && !h.model.ro && h.runners[0].cfg().backend == Backend::File && index % 3 == 1 {
+        let mode = if index % 2 == 0 { OpenMode::Map } else { OpenMode::MapCopyRo };
+        h.stay_read_only = true;
+        h.do_reopen(mode, 2, true, false, false);
+        if !h.failed && !h.closed && h.model.ro {
+            h.do_clone_arena();
+            h.check_invariants();
+            h.out.inc("c13_teardowns_of_read_only_sessions");
+        }
+    }
     h.finish();
     let f = h.flags.clone();
     let nontrivial = match knobs.prop.as_str() {
